@@ -131,6 +131,8 @@ class Repo:
                 tree = ast.parse(src, filename=str(path))
             except SyntaxError as e:  # the tree under analysis must parse
                 raise Unsupported(f'{rel}: does not parse: {e}') from e
+            from .inline import inline_local_procedures
+            inline_local_procedures(tree)
             mod = Module(
                 name=name,
                 path=path,
